@@ -31,6 +31,7 @@ import (
 	"sync/atomic"
 	"testing"
 	"time"
+	"verifharness/internal/fakes"
 
 	"github.com/attestantio/vouch/services/scheduler"
 	"github.com/attestantio/vouch/services/scheduler/advanced"
@@ -561,7 +562,11 @@ func waitGoroutines(base int, ceiling time.Duration) bool {
 		if runtime.NumGoroutine() <= base {
 			ok++
 			if ok >= 2 {
-				return true
+				// confirm with a consistent (stop-the-world) count: NumGoroutine can be transiently too low
+				if fakes.GoroutineCount() <= base {
+					return true
+				}
+				ok = 0
 			}
 		} else {
 			ok = 0
@@ -595,7 +600,10 @@ func settle(base int, overdueFrom time.Time, can *canary, leaked map[string]bool
 		if runtime.NumGoroutine() <= base {
 			ok++
 			if ok >= 2 {
-				return true, nil
+				if fakes.GoroutineCount() <= base {
+					return true, nil
+				}
+				ok = 0
 			}
 		} else {
 			ok = 0
